@@ -134,6 +134,27 @@ def check(ctx):
             ctx.require(R4, ok, c.where(), "the root list includes the %s certificates" % nm, ["config::Endpoint::to_generic", "roots-" + nm])
         shr = [v for v in sl.via if v.rsplit("::", 1)[-1] in ("filter", "take", "skip", "truncate", "retain", "dedup", "pop", "first", "last", "clear", "drain")]
         ctx.require(R4, not shr, c.where(), "no element is dropped from the list (%s)" % shr, ["config::Endpoint::to_generic", "roots-shrunk"])
+    # the three sources are ADDED to each other, none is a fallback for another: the code adding one source's roots stays
+    # reachable when the other optional source is present
+    from ..util import enum_edges
+    EPF, GLF = ("acmed::config::Endpoint", "root_certificates"), ("acmed::config::GlobalOptions", "root_certificates")
+    adders = {}
+    for c in tg.calls:
+        if c.bb not in tg.live_blocks() or (c.name or "").rsplit("::", 1)[-1] not in ("extend", "push", "append", "extend_from_slice", "chain"):
+            continue
+        for k_ in range(1, len(c.args)):
+            f_ = arg_origins(c, k_).fields
+            if EPF in f_:
+                adders.setdefault("endpoint", []).append(c)
+            if GLF in f_:
+                adders.setdefault("global", []).append(c)
+    for nm, other in (("global", EPF), ("endpoint", GLF)):
+        rem, nt = enum_edges(tg, other, "Some")
+        reach = tg.reachable(0, removed_edges=rem)
+        cs_ = adders.get(nm, [])
+        ctx.require(R4, bool(cs_) and nt > 0 and any(c.bb in reach for c in cs_), cs_[0].where() if cs_ else "%s:%s" % (tg.file, tg.line),
+                    "the %s roots are added also when the %s list is present (union of the sources, not a fallback)" % (nm, "endpoint's" if nm == "global" else "global"),
+                    ["config::Endpoint::to_generic", "roots-fallback", nm])
     en = prog.must_body("acmed::endpoint::Endpoint::new")
     for i, st in agg_assigns(en, "acmed::endpoint::Endpoint"):
         idx = st["rv"]["fields"].index("root_certificates")
